@@ -17,11 +17,16 @@ import (
 // ---------------------------------------------------------------- C03
 
 type oC03 struct {
-	r *e2e
+	r        *e2e
+	lastStep string // the stop step controler.Stop() reached last
 }
 
-func (o *oC03) Name() string                 { return "C03" }
-func (o *oC03) OnEvent(k *Kernel, ev *Event) {}
+func (o *oC03) Name() string { return "C03" }
+func (o *oC03) OnEvent(k *Kernel, ev *Event) {
+	if ev.Point == "stop.step" && len(ev.raw) > 0 {
+		o.lastStep, _ = ev.raw[0].(string)
+	}
+}
 func (o *oC03) OnQuiescent(k *Kernel)        {}
 
 func (o *oC03) OnEnd(k *Kernel) {
@@ -30,7 +35,11 @@ func (o *oC03) OnEnd(k *Kernel) {
 		return
 	}
 	if !r.stopReturned {
-		k.Violate("C03", "stop-returns", "stop-blocked", fmt.Sprintf("controler.Stop() did not return within %v of simulated time after the stop request (end=%s); parked: %v; pause state: %s", stopBound, k.endReason, k.ParkedSummary(), r.pauseState()))
+		where := "blocked in stop step " + o.lastStep
+		if r.sc.Cfg.UseHQ && persistentFaults(r.sc) {
+			where += " with crawl HQ down"
+		}
+		k.Violate("C03", "stop-returns", "stop-blocked", fmt.Sprintf("controler.Stop() did not return within %v of simulated time after the stop request (end=%s, %s); parked: %v; pause state: %s", stopBound, k.endReason, where, k.ParkedSummary(), r.pauseState()))
 		return
 	}
 	idx := NewWarcIndex(filepath.Join(r.jobPath, "warcs"))
